@@ -78,6 +78,9 @@ impl Out {
         self.w.write_all(s.as_bytes()).unwrap();
         self.w.write_all(b"\n").unwrap();
         self.lines += 1;
+        if s.starts_with("PROPFAIL") {
+            let _ = self.w.flush();     // a violation may be followed by a crash of the crate: keep the line
+        }
     }
     pub fn finish(mut self) -> u64 {
         self.w.flush().unwrap();
